@@ -9,6 +9,7 @@ class Int:
     __slots__ = ('w', 's', 'v')
     def __init__(self, w, s, v):
         self.w = w; self.s = s
+        if not isinstance(v, int) and z3.is_bv_value(v): v = v.as_long()
         if isinstance(v, int):
             v &= (1 << w) - 1
             if s and v >> (w - 1): v -= 1 << w
@@ -146,13 +147,36 @@ class Machine:
                 if cand in self.fn_index: return self.fn_index[cand]
         return None
 
+    def closure_ncaps(self, cty):
+        c = getattr(self, '_ncaps', None)
+        if c is None: c = self._ncaps = {}
+        if cty in c: return c[cty]
+        n = 0
+        for name, b in self.bodies.items():
+            if '{closure#' in name and ('_1: &%s' % cty in b.header or '_1: %s' % cty in b.header or '_1: &mut %s' % cty in b.header):
+                txt = '\n'.join(b.raw) if b.raw is not None else ''
+                if b.raw is None: txt = repr(b.blocks)
+                for m in re.finditer(r'\(\*?_1\)?\.(\d+): ', txt): n = max(n, int(m.group(1)) + 1)
+                for m in re.finditer(r"\('field', (\d+)", txt if b.raw is None else ''): pass
+                break
+        c[cty] = n
+        return n
+
     # ---- calling
     def call(self, name, args):
         b = self.bodies[name]
         mp.ensure_parsed(b)
         fr = Frame(b)
         for i, a in enumerate(args): fr.locals[i + 1] = a
-        return self.run(fr)
+        try:
+            return self.run(fr)
+        except (Panic, PathEnd, Unsupported): raise
+        except Exception as e:
+            if type(e).__name__ == 'Exit': raise
+            if not getattr(e, '_ctx', None):
+                e._ctx = True
+                raise Unsupported("internal %s: %s in %s at %r" % (type(e).__name__, e, b.name, getattr(self, 'cur_stmt', None)))
+            raise
 
     def run(self, fr):
         b = fr.body; bb = 0
@@ -160,7 +184,7 @@ class Machine:
             blk = b.blocks[bb]
             nxt = None
             for st in blk:
-                self.steps += 1
+                self.steps += 1; self.cur_stmt = st
                 if self.steps > self.step_limit: raise Panic("step limit (possible hang)")
                 k = st[0]
                 if k == 'assign':
@@ -199,13 +223,14 @@ class Machine:
             bb = nxt
 
     def do_switch(self, v, targets, otherwise):
-        if isinstance(v, bool) or z3.is_bool(v):
+        if isinstance(v, bool) or (not isinstance(v, (Int, Native, Agg)) and z3.is_bool(v)):
             # bool switch: targets like [(0, bbF)], otherwise bbT
             t = self.branch(v)
             val = 1 if t else 0
             for tv, tb in targets:
                 if tv == val: return tb
             return otherwise
+        if isinstance(v, Native): raise Unsupported("switch on native %r" % (v,))
         if not v.sym():
             for tv, tb in targets:
                 if tv == v.v or (tv & ((1 << v.w) - 1)) == (v.v & ((1 << v.w) - 1)): return tb
@@ -271,6 +296,10 @@ class Machine:
         m = re.fullmatch(r'(-?\d+)_([iu](?:8|16|32|64|128|size))', txt)
         if m:
             w, s = INT_TY[m.group(2)]; return Int(w, s, int(m.group(1)))
+        m = re.fullmatch(r'([iu](?:8|16|32|64|128|size))::(MIN|MAX)', txt)
+        if m:
+            w, sg = INT_TY[m.group(1)]
+            return Int(w, sg, (-(1 << (w-1)) if sg else 0) if m.group(2) == 'MIN' else ((1 << (w-1)) - 1 if sg else (1 << w) - 1))
         if txt == 'true': return True
         if txt == 'false': return False
         if txt == '()': return UNIT
@@ -329,7 +358,16 @@ class Machine:
             ty, variant = resolve_adt(path)
             return Agg(ty, variant, [self.operand(fr, a) for a in args])
         if k == 'closure':
-            return Agg(rv[1], 0, [self.operand(fr, a) for _, a in rv[2]])
+            ops = [a for _, a in rv[2]]
+            need = self.closure_ncaps(rv[1])
+            if ops and len(ops) < need:
+                # rustc's MIR printer zips capture operands with *variable names*, dropping operands when one
+                # variable is captured through several disjoint fields; the capture temporaries are consecutive locals
+                last = ops[-1]
+                assert last[0] in ('move', 'copy') and not last[1].proj
+                for j in range(1, need - len(ops) + 1):
+                    ops.append((last[0], mp.Place(last[1].local + j, ())))
+            return Agg(rv[1], 0, [self.operand(fr, a) for a in ops])
         if k == 'cast':
             v = self.operand(fr, rv[1]); ty = rv[2]; kind = rv[3]
             if isinstance(v, Native) and v.kind == 'BoxInner': return Ref(v.d['slot'], 0)
@@ -507,6 +545,8 @@ def canonical_impl_name(name):
 def resolve_adt(path):
     p = strip_generics(path)
     segs = p.split('::')
+    if len(segs) == 2 and segs[0] == 'Error' and 'MainError' in ENUMS and segs[1] in ENUMS['MainError']:
+        return 'MainError', ENUMS['MainError'].index(segs[1])
     if len(segs) >= 2 and segs[-2] in ENUMS and segs[-1] in ENUMS[segs[-2]]:
         return segs[-2], ENUMS[segs[-2]].index(segs[-1])
     return segs[-1], 0
@@ -519,7 +559,7 @@ def model(*names):
         return f
     return d
 def model_re(pat):
-    def d(f): MODEL_PATTERNS.append((re.compile(pat), f)); return f
+    def d(f): MODEL_PATTERNS.insert(0, (re.compile(pat), f)); return f
     return d
 
 def some(v): return Agg('Option', 1, [v])
@@ -738,8 +778,6 @@ def m_i64_eq(M, a, c):
 
 @model('panic_fmt', 'core::panicking::panic_fmt', 'core::panicking::panic', 'std::rt::begin_panic')
 def m_panic(M, a, c): raise Panic("explicit panic")
-@model_re(r'^core::fmt::rt::Argument::.*|^Arguments::.*')
-def m_fmt_arg(M, a, c): return Native('FmtArg', a=a)
 
 # ---------------------------------------------------------------- harness helpers
 def find_fn(M, pat):
